@@ -130,25 +130,31 @@ Definition ocall := (bop * N * code)%type.
 Definition all_done (lanes : list (list ocall)) : bool :=
   forallb (fun l => match l with [] => true | _ => false end) lanes.
 
+(* some lane has a next call [x] (rest of the lane [l'], the lanes without that call [lanes']) on
+   which [step] succeeds; the lanes keep their positions *)
+Fixpoint try_lanes (step : ocall -> list (list ocall) -> bool) (before after : list (list ocall)) : bool :=
+  match after with
+  | [] => false
+  | l :: after' =>
+      if match l with
+         | [] => false
+         | x :: l' => step x (rev before ++ l' :: after')
+         end
+      then true
+      else try_lanes step (l :: before) after'
+  end.
+
 Fixpoint lin (fuel : nat) (per : bool) (s : bstate) (lanes : list (list ocall)) (k : bstate -> bool) : bool :=
   match fuel with
   | O => false
   | Datatypes.S f =>
       if all_done lanes then k s
       else
-        (fix try (before after : list (list ocall)) : bool :=
-           match after with
-           | [] => false
-           | l :: after' =>
-               if match l with
-                  | [] => false
-                  | (o, id, c) :: l' =>
-                      let '(s', c') := b_step per s o id in
-                      if code_eqb c c' then lin f per s' (rev before ++ l' :: after') k else false
-                  end
-               then true
-               else try (l :: before) after'
-           end) [] lanes
+        try_lanes (fun x lanes' =>
+                     let '(o, id, c) := x in
+                     let '(s', c') := b_step per s o id in
+                     if code_eqb c c' then lin f per s' lanes' k else false)
+                  [] lanes
   end.
 
 Fixpoint zip_codes (l : list bcall) (cs : list code) : option (list ocall) :=
